@@ -67,7 +67,7 @@ class C02(Check):
     floor_nontrivial = 30
     required_counters = ("records_matched", "reopen_compared", "variant_runs_compared", "parallel_runs", "distinct_delivery_orders")
     shards = (14, 16)
-    budget = (100, 800)
+    budget = (300, 800)
 
     def cases(self, tier, seed):
         q = tier == "quick"
@@ -316,7 +316,10 @@ class C02(Check):
                                        max_workers=workers, buffersize=buffersize)
                     cat = Catalog(target, max_workers=1)
                 elif source == "dataframe":
-                    cat = Catalog.from_dataframe(target, pd.DataFrame(cols), **kw)
+                    frame = pd.DataFrame(cols)
+                    if case_bits(case, "row-labels") % 3 == 0:  # row labels of a larger parent table
+                        frame.index = np.arange(len(frame))[::-1] * 2 + 500
+                    cat = Catalog.from_dataframe(target, frame, **kw)
                 elif source == "random":
                     for k in ("ra_name", "dec_name", "weight_name", "redshift_name", "patch_name", "degrees"):
                         kw.pop(k, None)
